@@ -141,7 +141,7 @@ class TermRule(BaseRule):
         if isinstance(node, ast.List):
             parts = []
             for ch, av in children:
-                parts.append(("star(" + term_of(av) + ")") if isinstance(ch, ast.Starred) else term_of(av))
+                parts.append(T("star", term_of(av)) if isinstance(ch, ast.Starred) else term_of(av))
             return tv(T("list", *parts), none=False, truth=bool(parts) if not any(isinstance(c, ast.Starred) for c, _ in children) else None)
         if isinstance(node, ast.Set):
             return tv(T("set", *sorted(term_of(a) for a in avs)), none=False)
@@ -497,6 +497,15 @@ def norm(t: str) -> str:
         return T(op, *sorted(flat))
     if op == "iter" and len(nargs) == 1:
         return nargs[0]
+    # a fresh copy of a sequence X:  X[:]  ==  [*X]  ==  [X[0], *X[1:]]
+    if op == "slice" and len(nargs) == 4 and nargs[1:] == ["", "", ""]:
+        return T("copy", nargs[0])
+    if op == "list" and len(nargs) == 1 and destruct(nargs[0])[0] == "star":
+        return T("copy", destruct(nargs[0])[1][0])
+    if op == "list" and len(nargs) == 2 and destruct(nargs[1])[0] == "star":
+        h, tl = destruct(nargs[0]), destruct(destruct(nargs[1])[1][0])
+        if h[0] == "idx" and len(h[1]) == 2 and h[1][1] == "0" and tl[0] == "slice" and len(tl[1]) == 4 and tl[1][0] == h[1][0] and tl[1][1:] == ("1", "", ""):
+            return T("copy", h[1][0])
     parts = None
     if op == "format" and nargs and _is_strconst(nargs[0]) and isinstance(destruct(nargs[0])[1], str) and not any("=" in a.split("(", 1)[0] and not a.startswith(("'", '"')) for a in nargs[1:]):
         # "..{}..{}..".format(a, b)  ==  f"..{a}..{b}.."   (automatic or explicit positional fields without spec/conversion)
